@@ -1,7 +1,7 @@
 // C24 harness: one real SuppressionList driven through op sequences; after every op the full flag state is printed.
 //
 // A suppression travels as
-//   <hex id>:<hex file>:<line>:<hex symbol>:<hash>:<thisAndNextLine>:<type 0..5>:<lineBegin>:<lineEnd>:<column>:<inline>:<polyspace>:<checked>:<matched>
+//   <hex id>:<hex file>:<line>:<hex symbol>:<hash>:<thisAndNextLine>:<type 0..5>:<lineBegin>:<lineEnd>:<column>:<inline>:<polyspace>:<checked>:<matched>:<hex macroName>
 // Every answer is   P <parameters> | <result> | <state>
 // where <parameters> are the answers of code the C24 model takes as parameters (Suppression::isSuppressed verdicts,
 // PathMatch::match, matchglob, isValidGlobPattern), computed with the real functions on the current list.
@@ -54,12 +54,12 @@ static std::vector<std::string> splitc(const std::string& s, char c) {
 
 static bool parseSuppr(const std::string& t, S& s) {
     const std::vector<std::string> p = splitc(t, ':');
-    if (p.size() != 14) return false;
+    if (p.size() != 15) return false;
     s.errorId = unhex(p[0]); s.fileName = unhex(p[1]); s.lineNumber = std::stoi(p[2]); s.symbolName = unhex(p[3]);
     s.hash = std::stoull(p[4]); s.thisAndNextLine = p[5] == "1";
     s.type = static_cast<SuppressionList::Type>(std::stoi(p[6]));
     s.lineBegin = std::stoi(p[7]); s.lineEnd = std::stoi(p[8]); s.column = std::stoi(p[9]);
-    s.isInline = p[10] == "1"; s.isPolyspace = p[11] == "1"; s.checked = p[12] == "1"; s.matched = p[13] == "1";
+    s.isInline = p[10] == "1"; s.isPolyspace = p[11] == "1"; s.checked = p[12] == "1"; s.matched = p[13] == "1"; s.macroName = unhex(p[14]);
     return true;
 }
 
@@ -67,7 +67,7 @@ static std::string supprStr(const S& s) {
     std::ostringstream o;
     o << hex(s.errorId) << ':' << hex(s.fileName) << ':' << s.lineNumber << ':' << hex(s.symbolName) << ':' << s.hash << ':' << (s.thisAndNextLine ? 1 : 0)
       << ':' << static_cast<int>(s.type) << ':' << s.lineBegin << ':' << s.lineEnd << ':' << s.column << ':' << (s.isInline ? 1 : 0) << ':' << (s.isPolyspace ? 1 : 0)
-      << ':' << (s.checked ? 1 : 0) << ':' << (s.matched ? 1 : 0);
+      << ':' << (s.checked ? 1 : 0) << ':' << (s.matched ? 1 : 0) << ':' << hex(s.macroName);
     return o.str();
 }
 
